@@ -26,7 +26,7 @@ def strip_comments(s):
 
 def fn_body(text, name, prefix=""):
     """Text of `fn name(...) ... { body }` (brace matched), comments stripped, whitespace collapsed."""
-    m = re.search(prefix + r"\bfn\s+" + re.escape(name) + r"\b[^;{]*\{", text)
+    m = re.search(prefix + r"\bfn\s+" + re.escape(name) + r"\b(?:\[[^\]]*\]|[^;{])*\{", text)
     if not m:
         return None
     i = m.end() - 1
@@ -199,6 +199,25 @@ def main():
     # ---- C11: block-list mutators (whole bodies: control flow the model mirrors)
     for fn in ["sort_canonicals", "next_canonical_block_number", "add_canonical_block", "set_payload_block", "set_payload", "set_crc"]:
         txt("mut_" + fn, fn_body(bundle, fn))
+    # ---- C16: BPSec (feature bpsec)
+    sec = src("security.rs")
+    txt("sec_create_body", fn_body(sec, "create", r"pub "))
+    ch = fn_body(sec, "compute_hmac", r"pub ") or ""
+    txt("sec_compute_hmac_body", ch if ch else None)
+    txt("sec_to_cbor_body", fn_body(sec, "to_cbor", r"pub "))
+    txt("sec_payload_header_body", fn_body(sec, "construct_payload_header"))
+    txt("sec_security_header_body", fn_body(sec, "construct_security_header"))
+    txt("sec_new_integrity_block_body", fn_body(sec, "new_integrity_block", r"pub "))
+    nat("sec_integrity_block_type", sec, r"INTEGRITY_BLOCK: CanonicalBlockType = (\d+);")
+    nat("sec_bib_ctx_id", sec, r"BIB_HMAC_SHA2_ID: SecurityContextId = (\d+);")
+    nat("sec_sha256", sec, r"HMAC_SHA_256: ShaVariantType = (\d+);")
+    nat("sec_sha384", sec, r"HMAC_SHA_384: ShaVariantType = (\d+);")
+    nat("sec_sha512", sec, r"HMAC_SHA_512: ShaVariantType = (\d+);")
+    nat("sec_scope_primary", sec, r"INTEGRITY_PRIMARY_HEADER = (0x[0-9a-fA-F]+);")
+    nat("sec_scope_target", sec, r"INTEGRITY_PAYLOAD_HEADER = (0x[0-9a-fA-F]+);")
+    nat("sec_scope_security", sec, r"INTEGRITY_SECURITY_HEADER = (0x[0-9a-fA-F]+);")
+    m = re.search(r"impl Serialize for BibSecurityContextParameter \{(.*?)\n\}", sec, flags=re.S)
+    txt("sec_params_serialize", re.sub(r"\s+", " ", strip_comments(m.group(1))).strip() if m else None)
     # ---- emit
     lines = ["/- GENERATED by tools/extract.py from /repo/src — do not edit. -/", "namespace Bp7.Extracted", ""]
     for name, kind, v in facts:
